@@ -866,6 +866,10 @@ def gen_sources(rng):
     src.append({"t": "const", "kind": "SH1", "dtype": I64, "shape": [1], "value": [6]})
     src.append({"t": "const", "kind": "SH2", "dtype": I64, "shape": [2], "value": rng.choice([[3, 2], [1, 6], [6, 1], [2, 3]])})
     src.append({"t": "const", "kind": "SH23", "dtype": I64, "shape": [2], "value": [2, 3]})
+    if rng.random() < 0.5:
+        src.append({"t": "argdef", "kind": rng.choice(["SH23", "SH2", "F3"]), "dtype": I64, "shape": [2], "value": [2, 3]})
+        if src[-1]["kind"] == "F3":
+            src[-1].update(dtype=F32, shape=[3], value=[1.0, 2.0, 3.0])
     src.append({"t": "const", "kind": "ONE1", "dtype": I64, "shape": [1], "value": [1]})
     src.append({"t": "const", "kind": "ONE2", "dtype": I64, "shape": [2], "value": [1, 1]})
     src.append({"t": "const", "kind": "K1", "dtype": I64, "shape": [1], "value": [rng.randrange(1, 4)]})
@@ -886,7 +890,7 @@ def gen_sources(rng):
 def gen_program(rng, tmpl, n_steps=None, p_const=0.75):
     """A program: sources followed by operator steps.  Each env entry = (kind, is_const)."""
     src = gen_sources(rng)
-    env = [(s["kind"], s["t"] != "arg") for s in src]
+    env = [(s["kind"], s["t"] not in ("arg", "argdef")) for s in src]
     steps = []
     n_steps = n_steps or rng.randrange(5, 12)
     names = sorted(tmpl)
